@@ -12,6 +12,7 @@
 From Coq Require Import String ZArith Bool List.
 From PS Require Import Model.Data Model.Actions Model.Fsm Model.History Model.FsmCorr Model.CrashCorr Model.C06Corr
   Gen.ConstsSwap Gen.Tables Proofs.C06 Proofs.C06Witness.
+From PS Require Import Model.C06PayStream Proofs.C06PayStream.
 Import ListNotations.
 Open Scope Z_scope.
 
@@ -88,3 +89,24 @@ Theorem c06_recovery_claims_again : forall t, In t taker_tables -> forall tc dec
   is_finished terminal_states (m_cur m) = true \/ exists r rest, es = EBroadcastSpend SKPreimage r :: rest.
 Proof. exact recovery_claims_taker. Qed.
 Print Assumptions c06_recovery_claims_again.
+
+(* Adapter side (lnd back-end, Model/C06PayStream.v, tied to the real lnd.Client.RebalancePayment by `psh paystream`):
+   the state machine reads an error of RebalancePayment as "the claim payment did not go out".  For EVERY stream of
+   payment updates lnd can deliver: the adapter reports "paid" only after SUCCEEDED and "failed" only after FAILED,
+   each preceded by non-final updates only; while lnd reports unknown / in flight it reaches no verdict of its own
+   (the call ends only when lnd closes the stream).  That the real adapter puts no deadline of its own on the stream
+   is observed on every run (monitor clause of `ps_monitor`). *)
+Theorem c06_lnd_adapter_paid_only_after_succeeded : forall us n k, pay_stream us n = (OPaid, k) ->
+  exists pre post, us = (pre ++ PSucceeded :: post)%list /\ Forall nonfinal pre /\ k = (n + length pre + 1)%nat.
+Proof. exact pay_stream_paid. Qed.
+Print Assumptions c06_lnd_adapter_paid_only_after_succeeded.
+
+Theorem c06_lnd_adapter_failed_only_after_failed : forall us n k, pay_stream us n = (OFailedByLnd, k) ->
+  exists pre post, us = (pre ++ PFailed :: post)%list /\ Forall nonfinal pre /\ k = (n + length pre + 1)%nat.
+Proof. exact pay_stream_failed. Qed.
+Print Assumptions c06_lnd_adapter_failed_only_after_failed.
+
+Theorem c06_lnd_adapter_no_verdict_while_in_flight : forall us n,
+  Forall nonfinal us -> pay_stream us n = (OConnectionLost, (n + length us)%nat).
+Proof. exact pay_stream_in_flight_no_verdict. Qed.
+Print Assumptions c06_lnd_adapter_no_verdict_while_in_flight.
